@@ -299,6 +299,7 @@ def oracle(t, h1, h2, res):
 
 
 def build_tables(ctx):
+    M.process_prelude()
     tabs = []
     graphs = {}
     for st in M.settings():
